@@ -4,6 +4,7 @@ import (
 	"context"
 	"encoding/json"
 	"fmt"
+	"github.com/graphql-go/graphql/language/printer"
 	"hash/fnv"
 	"strings"
 
@@ -70,6 +71,10 @@ var c12Reqs = []c12Req{
 	{"h-noargs-after", `{ x4 x5 a { name } }`, nil, nil, "valid", nil},
 	{"s-enum-all", `{ __type(name:"Kind") { enumValues(includeDeprecated:true) { name isDeprecated } } }`, nil, nil, "introspection", nil},
 	{"s-enum-twice", `{ a: __type(name:"Kind") { enumValues { name } } b: __type(name:"Kind") { enumValues(includeDeprecated:true) { name } } c: __type(name:"Kind") { enumValues { name } } }`, nil, nil, "introspection", nil},
+	{"e-deferred-nonnull-two", `{ leafyNN { sNN s } deepNN { vNN v } x1 }`, nil, map[string]string{"R@leafyNN.sNN": FThunkErr, "R@deepNN.vNN": FThunkErr, "R@leafyNN.s": FThunk}, "failing", nil},
+	{"e-deferred-nonnull-three", `{ a { nn: leafy { sNN } } b { nn { sNN iNN } } c { deep { vNN } } x2 }`, nil, map[string]string{"R@a.nn.sNN": FThunkErr, "R@b.nn.sNN": FThunkPanic, "R@b.nn.iNN": FThunkNil, "R@c.deep.vNN": FThunkErr, "R@a": FThunk, "R@c": FThunk}, "failing", nil},
+	{"i-args-fragment-first", `fragment F on Query { echo(zz:1, s:2, i:"x") nodes(m:1, as:3) { id } } query { ...F echo(zz:1, s:2, i:"x") }`, nil, nil, "invalid", nil},
+	{"i-args-fragment-first-2", `fragment G on A { items(zz:1, n:"x", aa:2) { n } } { a { ...G items(zz:1, n:"x", aa:2) { n } } }`, nil, nil, "invalid", nil},
 	{"e-sentinel-1", `{ x1 x2 a { name } }`, nil, map[string]string{"R@x1": FSentinelErr, "R@a.name": FSentinelErr}, "failing", nil},
 	{"e-sentinel-2", `{ leafy { s } x3 }`, nil, map[string]string{"R@leafy.s": FSentinelErr, "R@x3": FSentinelErr}, "failing", nil},
 	{"v-typed-merge-a", `query($as:String){ node(as:$as) { peer(as:"B") { id } ... on A { peer(as:"B") { ... on B { bOnly } } } ... on C { peer(as:"B") { name } } } }`, map[string]interface{}{"as": "A"}, nil, "valid", nil},
@@ -110,12 +115,21 @@ func (c12) ID() string { return "C12" }
 var c12Policies = [][2]uint64{{verifmo.Sorted, 0}, {verifmo.Reverse, 0}, {verifmo.Rotate, 1}, {verifmo.Rotate, 2}, {verifmo.Rotate, 3}, {verifmo.Shuffle, 11}, {verifmo.Shuffle, 12}, {verifmo.Shuffle, 13}, {verifmo.Shuffle, 14}, {verifmo.Shuffle, 15}, {verifmo.Shuffle, 16}, {verifmo.Shuffle, 17}}
 
 func (c12) EnumSize(tier string) int {
-	// request x policy x {exec, rebuild, validate}
-	return len(c12Reqs) * len(c12Policies) * 3
+	// request x policy x {exec, rebuild, validate}, then every ordered pair
+	// (one earlier request, then the request)
+	return len(c12Reqs)*len(c12Policies)*3 + len(c12Reqs)*len(c12Reqs)
 }
 
 func (p c12) Gen(seed uint64, enum int, tier string) json.RawMessage {
 	s := C12Scn{}
+	if base := len(c12Reqs) * len(c12Policies) * 3; enum >= base {
+		enum -= base
+		s.Variant = "history"
+		s.Req = enum % len(c12Reqs)
+		s.History = []int{enum / len(c12Reqs)}
+		s.Cache = []string{"", "plain", "plan"}[enum%3]
+		return mustJSON(s)
+	}
 	if enum >= 0 {
 		s.Variant = []string{"exec", "rebuild", "validate"}[enum%3]
 		enum /= 3
@@ -279,6 +293,10 @@ func c12Validate(w *World, rq c12Req) string {
 	if err != nil {
 		return "syntax: " + err.Error()
 	}
+	return c12ValidateDoc(w, doc)
+}
+
+func c12ValidateDoc(w *World, doc *graphqlDoc) string {
 	vr := graphql.ValidateDocument(&w.Schema, doc, nil)
 	b, _ := json.Marshal(vr)
 	return string(b)
@@ -349,6 +367,19 @@ func (c12) Run(t TestingT, scn json.RawMessage, tape *Tape) *Outcome {
 	}
 	for _, h := range sc.History {
 		c12Exec(w, c12Reqs[h], cache, plans, sc.Cache)
+	}
+	if validate {
+		// one parsed document validated again and again (a server that keeps
+		// parsed documents), then printed: validation leaves it as it was
+		if doc, err := parseDoc(rq.Query); err == nil {
+			printed := fmt.Sprint(printer.Print(doc))
+			for i := 0; i < 3; i++ {
+				got = append(got, c12ValidateDoc(w, doc))
+			}
+			if after := fmt.Sprint(printer.Print(doc)); after != printed {
+				o.Violate("C12/validation-modifies-document", "validating %q changed the parsed document:\n before: %s\n  after: %s", rq.Query, printed, after)
+			}
+		}
 	}
 	for i := 0; i <= sc.Repeat; i++ {
 		if validate {
